@@ -264,8 +264,10 @@ func (w *Watcher) handleUnconfirmedEvents(ctx context.Context, logger *zap.Logge
 		contractEvent := event
 		unconfirmed, err := w.toUnconfirmedEvent(&contractEvent)
 		if err != nil {
-			logger.Error("failed to convert to unconfirmed event", zap.Error(err))
-			return nil, err
+			// Any contract can publish a message whose values do not fit the VAA format.
+			// Skip it; it must not take the rest of the page (or the watcher) down with it.
+			logger.Error("ignore malformed event", zap.String("txId", contractEvent.TxId), zap.Error(err))
+			continue
 		}
 		if unconfirmed.msg.IsAttestTokenVAA() {
 			logger.Info("received a message", zap.String("txId", unconfirmed.TxId), zap.String("blockHash", unconfirmed.BlockHash), zap.String("type", "attest"))
